@@ -214,7 +214,11 @@ def linking_loop(chk):
                     continue
                 n_paths += 1
                 label = "%d elements, kinds (last to first) %s, tail %s" % (len(iters), item_kinds[: len(iters)], "template" if tail_is_partial else "object")
-                appends = [e[1] for e in o.path.events if e[0] == "call" and e[1][1][0] == "attr" and e[1][1][2] == "append"]
+                appends = [e[1] for e in o.path.events if e[0] == "call" and e[1][1][0] == "attr" and e[1][1][2] in ("append", "appendleft")]
+                front = {c[1][2] for c in appends} == {"appendleft"}  # collected front-first: already in configuration order
+                if len({c[1][2] for c in appends}) > 1:
+                    chk.undecided(rule, name, "results are collected at both ends", node=fi.node)
+                    return
                 if len(appends) != len(iters):
                     chk.bad(rule, name, "%d elements but %d results collected" % (len(iters), len(appends)), node=fi.node, stmt="append-count", input=label)
                     ok = False
@@ -308,7 +312,7 @@ def linking_loop(chk):
                 # result re-reversed
                 r = strip_sites(o.value)
                 rev = iteration_layers(r)[0].count("reversed") % 2 == 1
-                if not rev:
+                if rev == front:
                     chk.bad(rule, name, "the collected objects are returned in construction order (last to first) instead of configuration order", node=fi.node, stmt="not-re-reversed")
                     ok = False
     # the "no template survives" guard
@@ -384,6 +388,10 @@ def narrow_try(chk):
 
 
 def run(chk):
+    # the document is read while its stream is open (shared with C13)
+    from . import c13
+
+    chk.guard("O13.7", c13.YAML_LOAD, c13.read_while_open, chk)
     chk.guard("O5.1", YAML_CTOR, node_kinds, chk)
     chk.guard("O5.2", ADD_PLUGINS, plugin_registration, chk)
     chk.guard("O5.3", PIPELINE, linking_loop, chk)
